@@ -180,7 +180,15 @@ func (s *Server) serveMsgBy(
 	}
 	ctx := contextutil.WithLazyDeadline(parent, deadline)
 	defer ctx.Cancel()
-	if contextutil.EffectiveError(ctx) != nil {
+	if err := contextutil.EffectiveError(ctx); err != nil {
+		// Its budget ran out before it got here (a decoded query waits in
+		// the same queues). The client is owed its SERVFAIL; a cancelled
+		// parent means there is nobody to tell.
+		if errors.Is(err, context.DeadlineExceeded) && s.AdmitsSource(w.RemoteAddr()) {
+			servfail := new(dns.Msg)
+			servfail.SetRcode(r, dns.RcodeServerFailure)
+			_ = w.WriteMsg(servfail)
+		}
 		return
 	}
 
